@@ -1513,6 +1513,74 @@ func attackPayloads(r *rand.Rand) [][]byte {
 			p = append(p, encodeCommand(args))
 		}
 	}
+	// "any sequence of valid commands": pipelines of valid commands whose effects build on each other
+	// (a counter result that is then written in place, a value that is then extended, keys aliased
+	// as source and destination, a collection emptied and used again) ...
+	seq := func(cmds ...[]string) []byte {
+		var b []byte
+		for _, c := range cmds {
+			args := make([][]byte, len(c))
+			for i, a := range c {
+				args[i] = []byte(a)
+			}
+			b = append(b, encodeCommand(args)...)
+		}
+		return b
+	}
+	for _, v := range []string{"0", "8", "41", "98", "99", "100", "-1", "-99", "255", "65535"} {
+		for _, w := range [][]string{{"SETRANGE", "vc", "0", "x"}, {"SETBIT", "vc", "7", "1"}, {"APPEND", "vc", "z"}, {"SETRANGE", "vc", "1", "yy"}, {"SETBIT", "vc", "0", "1"}} {
+			p = append(p, seq([]string{"SET", "vc", v}, []string{"INCR", "vc"}, w, []string{"GET", "vc"}, []string{"DECR", "vc"}, w, []string{"INCRBY", "vc", "1"}, w, []string{"DECRBY", "vc", "1"}, w,
+				[]string{"INCRBYFLOAT", "vc", "1"}, w, []string{"GET", "vc"}, []string{"DEL", "vc"}, []string{"INCR", "vc"}, w, []string{"DEL", "vc"}, []string{"DECR", "vc"}, w, []string{"GET", "vc"}))
+			p = append(p, seq([]string{"DEL", "vh"}, []string{"HSET", "vh", "f", v}, []string{"HINCRBY", "vh", "f", "1"}, []string{"HGET", "vh", "f"}, []string{"HINCRBYFLOAT", "vh", "f", "1"}, []string{"HSET", "vh", "f", "x"},
+				[]string{"HGETALL", "vh"}))
+		}
+	}
+	p = append(p,
+		seq([]string{"SET", "va", "abc"}, []string{"GETSET", "va", "def"}, []string{"APPEND", "va", "ghi"}, []string{"GETRANGE", "va", "0", "-1"}, []string{"SETRANGE", "va", "20", "x"}, []string{"STRLEN", "va"}),
+		seq([]string{"MSET", "va", "1", "va", "2"}, []string{"MGET", "va", "va"}, []string{"RENAME", "va", "va"}, []string{"RENAMENX", "va", "va"}, []string{"GET", "va"}),
+		seq([]string{"DEL", "vl"}, []string{"RPUSH", "vl", "a"}, []string{"RPOPLPUSH", "vl", "vl"}, []string{"LPOPRPUSH", "vl", "vl"}, []string{"LRANGE", "vl", "0", "-1"}, []string{"LPOP", "vl"}, []string{"RPOPLPUSH", "vl", "vl"}, []string{"LLEN", "vl"}),
+		seq([]string{"DEL", "vs"}, []string{"SADD", "vs", "m"}, []string{"SMOVE", "vs", "vs", "m"}, []string{"SUNIONSTORE", "vs", "vs", "vs"}, []string{"SINTERSTORE", "vs", "vs"}, []string{"SDIFFSTORE", "vs", "vs", "vs"}, []string{"SCARD", "vs"}, []string{"SPOP", "vs"}, []string{"SMOVE", "vs", "vs", "m"}),
+		seq([]string{"DEL", "vz"}, []string{"ZADD", "vz", "1", "a"}, []string{"ZUNIONSTORE", "vz", "1", "vz"}, []string{"ZINTERSTORE", "vz", "2", "vz", "vz"}, []string{"ZUNIONSTORE", "vz", "2", "vz", "vz", "WEIGHTS", "2", "3", "AGGREGATE", "MAX"}, []string{"ZRANGE", "vz", "0", "-1", "WITHSCORES"}, []string{"ZREM", "vz", "a"}, []string{"ZCARD", "vz"}, []string{"ZADD", "vz", "XX", "1", "a"}),
+		seq([]string{"MULTI"}, []string{"SET", "vm", "1"}, []string{"INCR", "vm"}, []string{"SETBIT", "vm", "7", "1"}, []string{"LPUSH", "vm", "x"}, []string{"EXEC"}, []string{"GET", "vm"}),
+		seq([]string{"WATCH", "vm"}, []string{"MULTI"}, []string{"WATCH", "vm"}, []string{"EXEC"}, []string{"EXEC"}, []string{"DISCARD"}, []string{"UNWATCH"}),
+		seq([]string{"SET", "ve", "v", "PX", "1"}, []string{"PTTL", "ve"}, []string{"APPEND", "ve", "x"}, []string{"INCR", "ve"}, []string{"PERSIST", "ve"}, []string{"EXPIRE", "ve", "0"}, []string{"GET", "ve"}, []string{"SETRANGE", "ve", "0", ""}, []string{"GET", "ve"}),
+	)
+	// ... and random pipelines of valid commands over a few keys of every type
+	tpl := [][]string{{"SET", "K", "V"}, {"GET", "K"}, {"INCR", "K"}, {"DECR", "K"}, {"APPEND", "K", "V"}, {"SETRANGE", "K", "N", "V"}, {"SETBIT", "K", "N", "1"}, {"GETRANGE", "K", "N", "N"}, {"STRLEN", "K"}, {"DEL", "K"},
+		{"RPUSH", "L", "V", "V"}, {"LPOP", "L"}, {"RPOPLPUSH", "L", "L"}, {"LSET", "L", "N", "V"}, {"LTRIM", "L", "N", "N"}, {"LINSERT", "L", "BEFORE", "V", "V"}, {"LREM", "L", "N", "V"}, {"LRANGE", "L", "N", "N"},
+		{"HSET", "H", "V", "V"}, {"HINCRBY", "H", "V", "N"}, {"HDEL", "H", "V"}, {"HGETALL", "H"}, {"SADD", "S", "V", "V"}, {"SPOP", "S"}, {"SMOVE", "S", "S", "V"}, {"SUNIONSTORE", "S", "S", "S"}, {"SINTERSTORE", "S", "S", "S"},
+		{"ZADD", "Z", "N", "V"}, {"ZINCRBY", "Z", "N", "V"}, {"ZREM", "Z", "V"}, {"ZRANGE", "Z", "N", "N"}, {"ZUNIONSTORE", "Z", "2", "Z", "Z"}, {"ZREMRANGEBYRANK", "Z", "N", "N"}, {"RENAME", "K", "K"}, {"EXPIRE", "K", "N"}, {"PERSIST", "K"},
+		{"TYPE", "K"}, {"SCAN", "0"}, {"KEYS", "*"}, {"MSET", "K", "V", "K", "V"}, {"MGET", "K", "K"}, {"GETSET", "K", "V"}, {"SETNX", "K", "V"}, {"INCRBYFLOAT", "K", "N"}}
+	vals := []string{"", "a", "b", "0", "1", "41", "99", "-1", "xyz", "10"}
+	nums := []string{"0", "1", "-1", "2", "5", "10", "-2"}
+	for i := 0; i < 150; i++ {
+		var cmds [][]string
+		for j := 0; j < 8; j++ {
+			t := tpl[r.Intn(len(tpl))]
+			c := make([]string, len(t))
+			for x, a := range t {
+				switch a {
+				case "K":
+					a = []string{"rk1", "rk2"}[r.Intn(2)]
+				case "L":
+					a = []string{"rl1", "rl2"}[r.Intn(2)]
+				case "H":
+					a = "rh1"
+				case "S":
+					a = []string{"rs1", "rs2"}[r.Intn(2)]
+				case "Z":
+					a = []string{"rz1", "rz2"}[r.Intn(2)]
+				case "V":
+					a = vals[r.Intn(len(vals))]
+				case "N":
+					a = nums[r.Intn(len(nums))]
+				}
+				c[x] = a
+			}
+			cmds = append(cmds, c)
+		}
+		p = append(p, seq(cmds...))
+	}
 	return p
 }
 
@@ -1844,3 +1912,68 @@ func scTCPWatchBPop(addr string, n *nodis.Nodis, rounds int) string {
 }
 
 func init() { scenarios["tcp-watch-bpop"] = tcpScenario(scTCPWatchBPop) }
+
+// ---- self-moves (C07) ------------------------------------------------------------------------------
+
+// A command that names one key as source and destination and empties it on the way (RPOPLPUSH l l on a
+// one-element list, SMOVE s s m on a one-member set, SUNIONSTORE s s) removes the key and creates it
+// again inside one command: no client may look into the gap - the element is never in neither place.
+func scSelfMove(n *nodis.Nodis, r *rand.Rand, rounds int) string {
+	for round := 0; round < rounds; round++ {
+		l, s, u := fmt.Sprintf("sl%d", round), fmt.Sprintf("ss%d", round), fmt.Sprintf("su%d", round)
+		n.RPush(l, []byte("only"))
+		n.SAdd(s, "m")
+		n.SAdd(u, "m")
+		var bad atomic.Value
+		var stop int32
+		var wg sync.WaitGroup
+		wg.Add(3)
+		go func() {
+			defer wg.Done()
+			for j := 0; j < 400 && atomic.LoadInt32(&stop) == 0; j++ {
+				if j%2 == 0 {
+					n.RPopLPush(l, l)
+				} else {
+					n.LPopRPush(l, l)
+				}
+			}
+			atomic.StoreInt32(&stop, 1)
+		}()
+		go func() {
+			defer wg.Done()
+			for j := 0; j < 400 && atomic.LoadInt32(&stop) == 0; j++ {
+				n.SMove(s, s, "m")
+				n.SUnionStore(u, u)
+			}
+		}()
+		go func() {
+			defer wg.Done()
+			for atomic.LoadInt32(&stop) == 0 {
+				if c := n.LLen(l); c != 1 {
+					bad.Store(fmt.Sprintf("LLEN %s = %d while its only element is being rotated onto itself", l, c))
+					break
+				}
+				if n.Exists(l) != 1 {
+					bad.Store(fmt.Sprintf("EXISTS %s = 0 while its only element is being rotated onto itself", l))
+					break
+				}
+				if !n.SIsMember(s, "m") {
+					bad.Store(fmt.Sprintf("SISMEMBER %s m = 0 while m is being moved from %s to %s", s, s, s))
+					break
+				}
+				if c := n.SCard(u); c != 1 {
+					bad.Store(fmt.Sprintf("SCARD %s = %d while SUNIONSTORE %s %s runs", u, c, u, u))
+					break
+				}
+			}
+			atomic.StoreInt32(&stop, 1)
+		}()
+		wg.Wait()
+		if v := bad.Load(); v != nil {
+			return fmt.Sprintf("FAIL %s (round %d)", v, round)
+		}
+	}
+	return fmt.Sprintf("ok rounds=%d", rounds)
+}
+
+func init() { scenarios["self-move"] = scSelfMove }
